@@ -1099,7 +1099,9 @@ func TestC02Sched(t *testing.T) {
 	run(t, "C02", c02ExpiryRace(), c07RefreshVsExpiryDir("perm", true), c02SlowDeleteCallback("chan"), c02SlowDeleteCallback("perm"))
 }
 func TestC19Sched(t *testing.T) {
-	run(t, "C19", c19RetransmitDuringSlowAllocate(), c19ErrorPreparedBeforeSlowGenerator())
+	// c06Realloc: the relayed address an Allocate success has just reported must be one that works - also when the
+	// goroutines of the allocation that held the 5-tuple before are still winding down
+	run(t, "C19", c19RetransmitDuringSlowAllocate(), c19ErrorPreparedBeforeSlowGenerator(), c06Realloc())
 }
 func TestC07Sched(t *testing.T) { run(t, "C07", c07RefreshVsExpiry("perm"), c07RefreshVsExpiry("chan")) }
 func TestC06Sched(t *testing.T) { run(t, "C06", c06Realloc(), c06ReallocVsTimer(), c06Reconnect(), c06RefreshVsExpiry()) }
